@@ -981,6 +981,11 @@ func (e *Engine) evalCall(c *evalCtx, n *ECall) Val {
 			s := e.resolveAlias(c.st, streamRef(e.eval(c, n.Args[0])))
 			i := toWidth(e.eval(c, n.Args[1]).t(), 64, false)
 			return Val{types.Typ[types.Uint8], []*Term{c.st.loadLeaf("bs|data", []*Term{s, i}, BV(8))}}
+		case "broken":
+			// broken(w): every Write on the stream w fails (the meaning of a "broken connection"); the writer model
+			// assumes !broken(w) on each successful Write
+			s := e.resolveAlias(c.st, streamRef(e.eval(c, n.Args[0])))
+			return Val{types.Typ[types.Bool], []*Term{App("uf!broken", BoolSort, s)}}
 		case "buflen":
 			s := e.resolveAlias(c.st, streamRef(e.eval(c, n.Args[0])))
 			return Val{types.Typ[types.Uint64], []*Term{bufLen(c.st, s)}}
